@@ -23,8 +23,9 @@
     * `outBlk b i` — `struct out_blk` + `out_granul` bytes, buffer `i` of block
                      `b`; held by the worker in `emit()` and by `reord_q`;
     * `sinkBuf m`  — the same memory after `sink_write_buffer` (expand.c:791),
-                     named by its sequence number `m` in the output; held by
-                     the writer side while in flight.  (The model keeps no
+                     named by its sequence number `m` in the output; the oldest
+                     buffer in flight is held by the writer thread (the others
+                     sit in `output_q` and are touched by nobody).  (The model keeps no
                      identities in `output_q`; that no emit job / `reord_q`
                      entry has the key of a buffer already handed over is NOT
                      proved, see Props.C12 "expand_owner_unique".)
@@ -154,7 +155,7 @@ def holds (c : Cfg) (s : State) : DVar → Holder → Prop
   | .scanD k, .thread .reader => s.rph = .hold ∧ k = s.rd
   | .scanD k, .queue .scan => ∃ sp ∈ s.scanQ, sp / c.W = k
   | .scanD k, .thread (.busy ph) => ph ∈ s.busy ∧ scanOf ph = some k
-  | .sinkBuf m, .thread .writer => s.written.length - s.outq ≤ m ∧ m < s.written.length
+  | .sinkBuf m, .thread .writer => 0 < s.outq ∧ m = s.written.length - s.outq
   | _, _ => False
 
 /-- the heap object is live -/
@@ -376,8 +377,9 @@ def fp (c : Cfg) (s : State) : Sec → List Acc
      wr .reader [] .ispecTotal, rd .reader [] (.cfg .process), wr .reader [] (.inBlk s.rd),
      rd .reader [] .tailOffs, wr .reader [] (.scanD s.rd)] ++
       rds .reader S [.parsingDone, .tailOffs, .inputQ, .scanQ] ++
-      wrs .reader S [.eofMissing, .tailOffs, .inputQ, .scanQ] ++
-      [rd .reader S (.inBlk s.rd), rd .reader S (.scanD s.rd)] ++ selectFp .reader c s ++
+      wrs .reader S [.eofMissing, .inputQ, .scanQ] ++
+      [wr .reader S .tailOffs, rd .reader S (.inBlk s.rd), rd .reader S (.scanD s.rd)] ++
+      selectFp .reader c s ++
       [rd .reader [.source] .inSlots, wr .reader [.source] .inSlots]
   -- process.c:418-427, 445-454
   | .rEmpty =>
